@@ -104,7 +104,7 @@ def x_fromregex( ctx ):
     #      0 -a-> 1 -b-> 2 -c-> 3 ( final ) with greenery's oblivion state 4, and a loop ( a b )+ - with a recording stand-in for the state class.
     #      Exactly the oblivion state is dropped: a state two or more steps ahead of a final one is as alive as its successor
     from .fold import run_block, Record, NoFold as _NoFold
-    pre_ = [ st for st in fn.body[:fn.body.index( l1 ) + 1] if any( 'machine.map' in txt( x ) or 'machine.finals' in txt( x ) for x in ast.walk( st ) if isinstance( x, ast.Attribute ))
+    pre_ = [ st for st in fn.body[:fn.body.index( l1 ) + 1] if not isinstance( st, ast.FunctionDef ) and any( 'machine.map' in txt( x ) or 'machine.finals' in txt( x ) for x in ast.walk( st ) if isinstance( x, ast.Attribute ))
              or ( isinstance( st, ast.Assign ) and isinstance( st.value, ( ast.Dict, ast.Call, ast.Set )) and not names_in( st.value ) - { 'set', 'dict' } ) ]
     samples = (( 'abc', { 0: { 'a': 1, None: 4 }, 1: { 'b': 2, None: 4 }, 2: { 'c': 3, None: 4 }, 3: { None: 4 }, 4: { None: 4 } }, { 3 }, { 0, 1, 2, 3 } ),
                ( '(ab)+', { 0: { 'a': 1, None: 3 }, 1: { 'b': 2, None: 3 }, 2: { 'a': 1, None: 3 }, 3: { None: 3 } }, { 2 }, { 0, 1, 2 } ),
@@ -112,7 +112,9 @@ def x_fromregex( ctx ):
     wrong_ = []
     for name_, map_, finals_, want_ in samples:
         made = []
-        env_ = { 'machine': Record( map=map_, finals=finals_, initial=0 ), 'cls': lambda *a, **kw: ( made.append( a[0] ) or Record( name=a[0], **kw )), 'kwds': {}, 'str': str, 'all': all, 'any': any, 'set': set, 'dict': dict }
+        env_ = { 'machine': Record( map=map_, finals=finals_, initial=0 ), 'cls': lambda *a, **kw: ( made.append(( a + ( kw.get( 'name' ), ))[0] ) or Record( **kw )), 'kwds': {}, 'str': str, 'all': all, 'any': any, 'set': set, 'dict': dict }
+        from .fold import helper_calls as _hc
+        env_.update( _hc( ast.Module( body=[ f_ for f_ in fn.body if isinstance( f_, ast.FunctionDef ) ], type_ignores=[] ), ignore_calls=( 'log', ), base_env=env_ ))
         try:
             run_block( pre_, env_, ignore_calls=( 'log', ))
         except _NoFold as exc:
